@@ -30,7 +30,8 @@ MIN_REACH = {
     "calls_logged": {"quick": 2000, "thorough": 60000},
     "missing_slots_checked": {"quick": 1200, "thorough": 40000},
     "unsortable_axes_judged": {"quick": 15, "thorough": 300},
-    "rejections_checked": {"quick": 10, "thorough": 100},
+    "rejections_checked": {"quick": 20, "thorough": 150},
+    "rejections_checked_with_positional_cases": {"quick": 5, "thorough": 40},
 }
 TIME_BUDGET = {"quick": 300, "thorough": 3000}
 
@@ -62,15 +63,16 @@ def cases(ctx):
         }
         yield c
     # overlap between case arguments and sub-grid arguments must be refused before any call
-    for i in range(ctx.pick(16, 160)):
+    for i in range(ctx.pick(40, 300)):
         names, cs = gens.gen_cases(rng, nargs=(1, 3))
         a = rng.choice(names)
         sub = [[a, gens.gen_values(rng, 2, "int")]]
         if rng.random() < 0.5:
             other = [x for x in gens.ARG_POOL if x not in names]
             sub.insert(rng.randrange(2), [rng.choice(other), [1, 2]])
-        yield {"entry": rng.choice(["combo_runner", "case_runner"]), "names": names, "cases": cs, "sub": sub,
-               "kind": "int", "split": False, "flat": False, "spelling": "dict", "shuffle": False,
+        entry = rng.choice(["combo_runner", "case_runner", "case_runner"])
+        yield {"entry": entry, "names": names, "cases": cs, "sub": sub,
+               "kind": "int", "split": False, "flat": False, "spelling": rng.choice(["dict", "tuple"]) if entry == "case_runner" else "dict", "shuffle": False,
                "constants": {}, "keyorder_seed": 0, "single_dict": False, "expect": "overlap"}
 
 
@@ -123,6 +125,8 @@ def run_case(ctx, case):
 
     if case.get("expect") == "overlap":
         ctx.count("rejections_checked")
+        if case["spelling"] == "tuple":
+            ctx.count("rejections_checked_with_positional_cases")
         ctx.check(err is not None and not logged, case,
                   "argument in both cases and combos not refused before running: err=%r calls=%d" % (err, len(logged)),
                   dict(sig0, oracle="overlap-rejected"))
